@@ -510,3 +510,53 @@ Definition view (srvname : str) (srvport : Z) (e : entry) : option vitem :=
                                   (quote_str [47] (eff_type e ++ e_selector e)))
            end
   end.
+
+(* ---------- the entries on which every client sees `view` ---------- *)
+(* The conditions are those of the formats themselves: Gopher fields cannot hold
+   TAB CR LF, a gemtext line cannot hold LF and its URL cannot hold blanks, an
+   information line must not read as a link line, a local selector is an absolute
+   path, an entry is either on this server (no host, no port) or visibly on another
+   one.  Fields are decoded text (what decoding some bytes gives). *)
+Definition no_tcl (s : str) : bool := negb (mem_N 9 s) && negb (mem_N 10 s) && negb (mem_N 13 s).
+Definition no_ws (s : str) : bool := forallb (fun c => negb (is_ascii_ws c)) s.
+Definition canon (s : str) : bool :=
+  match encode_se s with Some b => str_eqb (decode_se b) s | None => false end.
+Definition url_ok (u : str) : bool :=
+  match u with [] => false | _ => negb (is_local_href u) && no_ws u end.
+(* an absolute path that does not collide with Gemini's reserved query prefix *)
+Definition local_sel_ok (s : str) : bool :=
+  is_local_href s && canon s &&
+  match quote_str [47] s with
+  | Some q => negb (prefixb (QUERY_PREFIX ++ [47]) q)
+  | None => false
+  end.
+Definition reads_as_text (l : str) : bool :=
+  match parse_link_line l with None => true | Some _ => false end.
+
+Definition remote_ok (srvname : str) (srvport : Z) (c : N) (e : entry) : bool :=
+  negb (is_local e) &&
+  negb (str_eqb (eff_host srvname e) srvname && Z.eqb (eff_port srvport e) srvport) &&
+  (match e_port e with Some _ => true | None => Z.eqb srvport 70 end) &&
+  no_ws (eff_host srvname e) &&
+  match encode_se (c :: e_selector e) with Some _ => true | None => false end.
+
+Definition entry_wf (srvname : str) (srvport : Z) (e : entry) : bool :=
+  match e_name e, e_type e with
+  | Some n, Some [c] =>
+      no_tcl n && canon n && negb (mem_N c [9; 10; 13]) &&
+      no_tcl (e_selector e) && no_tcl (eff_host srvname e) &&
+      (if c =? T_INFO then reads_as_text (bsr_map n) else true) &&
+      match url_tail (e_selector e) with
+      | Some r => url_ok r
+      | None =>
+          match e_host e, e_port e with
+          | None, None => local_sel_ok (e_selector e)
+          | _, _ => remote_ok srvname srvport c e
+          end
+      end
+  | _, _ => false
+  end.
+
+(* a directory: the entry of the directory, its entries, and every abstract line *)
+Definition dir_wf (srvname : str) (srvport : Z) (d : entry) (es : list entry) : bool :=
+  forallb (entry_wf srvname srvport) (expand_dir true true d es).
